@@ -18,7 +18,10 @@ def domain(tier, name):
     import contracts.c05 as c05
     kind = c05.RULE[name]
     if kind == 'omaha':
-        full = [(h, b) for h in range(0, 6) for b in range(0, 6)]
+        import math
+        # up to 30 candidate combinations per shape (4+4, 3+5, 5+3); beyond that the merged running maximum leaves the solvers undecided
+        # at 120 s -- the loop logic for any number of candidates is the unbounded half (contracts/c05inf.py)
+        full = [(h, b) for h in range(0, 6) for b in range(0, 6) if math.comb(h, 2) * math.comb(b, 3) <= 30]
         quick = [(4, 4), (4, 3), (2, 3), (4, 2), (1, 5), (3, 5)]
     elif kind == 'greek':
         full = [(2, b) for b in range(0, 6)]
@@ -45,19 +48,39 @@ def vc_task(task):
     name, h, b, lazy = task['cls'], task['h'], task['b'], task['lazy']
     cls = getattr(H, name)
     K = c05.CONTRACTS[name + ('?' if task['or_none'] else '')]
-    hole = tuple(range(h))
-    board = tuple(range(100, 100 + b))
+    # cards are abstract but STRUCTURED: pairwise different objects (identity tags) with a symbolic known rank and suit each, no two alike.
+    # The unchanged from_game never looks at rank or suit; code that does (an "optimisation" keyed on ranks) is executed all the same.
+    import pokerkit.utilities as ut
+    from pyvc.values import SymEnum
+    ranks_known = [r for r in ut.Rank if r != ut.Rank.UNKNOWN]
+    suits_known = [x for x in ut.Suit if x != ut.Suit.UNKNOWN]
+    RL, SL = list(ut.Rank), list(ut.Suit)
+    wf_cards = []
+
+    def mk_card(tag):
+        r, su = z3.Int(f'card{tag}.rank'), z3.Int(f'card{tag}.suit')
+        wf_cards.append(z3.And(r >= 0, r < len(RL), su >= 0, su < len(SL), r != RL.index(ut.Rank.UNKNOWN), su != SL.index(ut.Suit.UNKNOWN)))
+        return SymObj(ut.Card, {'rank': SymEnum(ut.Rank, r), 'suit': SymEnum(ut.Suit, su)}, ident=tag), (r, su)
+    made = [mk_card(t) for t in list(range(h)) + list(range(100, 100 + b))]
+    for i in range(len(made)):
+        for j in range(i):
+            wf_cards.append(z3.Or(made[i][1][0] != made[j][1][0], made[i][1][1] != made[j][1][1]))
+    hole = tuple(c for c, _ in made[:h])
+    board = tuple(c for c, _ in made[h:])
     valid, index = {}, {}
+
+    def ids(seq):
+        return frozenset(c.ident for c in seq)
 
     def key_of(I, ctx, cards):
         from pyvc import models
-        return frozenset(models.to_seq(I, ctx, cards))
+        return ids(models.to_seq(I, ctx, cards))
 
     def init_cut(I, ctx, fn, args, kwargs, node):
         from pyvc import models
         self_ref, cards = args[0], args[1]
-        seq = (cards,) if isinstance(cards, int) else tuple(models.to_seq(I, ctx, cards))      # Card.clean of a single card
-        k = frozenset(seq)
+        seq = (cards,) if isinstance(cards, SymObj) else tuple(models.to_seq(I, ctx, cards))      # Card.clean of a single card
+        k = ids(seq)
         if k not in valid:
             valid[k] = z3.Bool('valid{' + ','.join(map(str, sorted(k))) + '}')
             index[k] = z3.Int('index{' + ','.join(map(str, sorted(k))) + '}')
@@ -70,7 +93,7 @@ def vc_task(task):
 
     def entry_cut(I, ctx, fn, args, kwargs, node):
         obj = ctx.get(args[0]) if isinstance(args[0], Ref) else args[0].heap[args[0].ref.cell]
-        k = frozenset(obj.fields['_Hand__cards'])
+        k = ids(obj.fields['_Hand__cards'])
         return SymObj(L.Entry, {'index': index[k], 'label': Opaque('label')})
 
     def clean_cut(I, ctx, fn, args, kwargs, node):
@@ -89,6 +112,7 @@ def vc_task(task):
     def setup(vc, ctx, bindings):
         bindings['hole'] = hole
         bindings['board'] = board
+        ctx.assume(z3.And(*wf_cards) if wf_cards else True)
     res = verify_contract(src, K, Shape(n=2, S=1, T=1, B=1, H=1), with_state=False,
                           arg_makers={'cls': mk_cls, 'hole_cards': mk_cards(hole), 'board_cards': mk_cards(board)}, cuts=cuts, setup=setup,
                           timeout_ms=task['timeout_ms'], unwind=128, tag=f'{name}-h{h}b{b}' + ('-lazy' if lazy else ''),
@@ -211,6 +235,71 @@ def inf_task(task):
     return out
 
 
+def standin_task(task):
+    """bounded stand-in (label B, never counted as proved): the real from_game / from_game_or_none of one class on random real deals
+    (tuples and one-shot iterators) against the statement's clauses evaluated natively.  It decides nothing on its own; its role is to
+    give a FAILING INPUT when a changed from_game is of a shape the deductive tasks cannot execute (cards inspected by rank or suit,
+    sorting, ...), where they end as checker errors."""
+    import random
+    import time
+    import pokerkit.hands as H
+    from pokerkit.utilities import Deck
+    import contracts.c05 as c05
+    t0 = time.time()
+    name = task['cls']
+    cls = getattr(H, name)
+    kind = c05.RULE[name]
+    deck = list({'ShortDeckHoldemHand': Deck.SHORT_DECK_HOLDEM, 'KuhnPokerHand': Deck.KUHN_POKER}.get(name, Deck.STANDARD))
+    rng = random.Random(task['seed'] * 7919 + sum(map(ord, name)))
+    base = c05.from_game_base
+    fails, n = [], 0
+    while n < task['deals'] and time.time() - t0 < task['budget_s'] and len(fails) < 3:
+        n += 1
+        if kind == 'any':
+            h = rng.randint(0, 7); bd = rng.randint(0, min(5, 8 - h))
+        elif kind == 'greek':
+            h, bd = 2, rng.randint(0, 5)
+        elif kind == 'badugi':
+            h, bd = rng.randint(0, 6), 0
+        elif kind == 'kuhn':
+            h, bd = rng.randint(1, 2), rng.randint(0, 1)
+        else:
+            h, bd = rng.randint(0, 5), rng.randint(0, 5)
+        if h + bd > len(deck):
+            continue
+        cs = rng.sample(deck, h + bd)
+        if rng.random() < 0.35 and h + bd >= 4:
+            # paired / suited structure makes ties and near-ties likely
+            r0 = rng.choice(cs)
+            cs = [c for c in deck if c.rank == r0.rank][:rng.randint(2, 3)] + [c for c in deck if c.suit == r0.suit and c.rank != r0.rank][:h + bd]
+            cs = cs[:h + bd]
+            rng.shuffle(cs)
+        hole, board = tuple(cs[:h]), tuple(cs[h:])
+        lazy = rng.random() < 0.3
+        r, exc = None, None
+        try:
+            r = cls.from_game(iter(hole), iter(board)) if lazy else cls.from_game(hole, board)
+        except ValueError as e:
+            exc = e
+        except Exception as e:   # noqa
+            fails.append(f'{name}.from_game: hole {hole} board {board}: raised {type(e).__name__}: {e}')
+            continue
+        if kind == 'kuhn' and not c05.kuhn_requires(cls, hole, board):
+            continue
+        if exc is not None:
+            bad = not base.no_legal_combination(cls, hole, board)
+            what = 'raised ValueError although a legal combination exists'
+        else:
+            bad = base.no_legal_combination(cls, hole, board) or not base.is_an_allowed_combination(cls, hole, board, r) \
+                or not base.is_the_strongest(cls, hole, board, r)
+            what = f'returned {r!r}, which is not the strongest legal combination'
+        if bad:
+            fails.append(f'{name}.from_game: hole {hole} board {board}{" (one-shot iterators)" if lazy else ""}: {what}')
+    return {'results': [], 'contract': None, 'task': f'stand-in/{name}',
+            'standin': {'bound': f'{n} random real deals of {name} (seed {task["seed"]})', 'deals': n, 'failures': fails,
+                        'seconds': round(time.time() - t0, 2)}}
+
+
 def monotone_task(task):
     """(lemma used by C12) adding a card to the hole or to the board never weakens the evaluated hand: the real from_game is run on
     (hole, board) and on the richer pair with the SAME validity / strength symbols per card set"""
@@ -293,6 +382,9 @@ def main(argv=None):
                     tasks.append({'module': 'props.c05', 'fn': 'vc_task', 'name': f'{name}/h{h}b{b}' + ('/lazy' if lazy else '') + ('/or_none' if or_none else ''),
                                   'cls': name, 'h': h, 'b': b, 'lazy': lazy, 'or_none': or_none,
                                   'timeout_ms': 120000 if chk.tier == 'thorough' else 30000, 'weight': (h + b) ** 2})
+    for name in (only or c05.RULE):
+        tasks.append({'module': 'props.c05', 'fn': 'standin_task', 'name': f'stand-in/{name}', 'cls': name, 'seed': chk.seed,
+                      'deals': 1500 if chk.tier == 'quick' else 30000, 'budget_s': 20 if chk.tier == 'quick' else 300, 'weight': 30})
     import contracts.c05inf as cinf
     for level, names in cinf.CLASSES.items():
         for name in names:
@@ -316,7 +408,12 @@ def main(argv=None):
         'badugi: "largest subset first" is the statement\'s rule; that a larger badugi beats every smaller one is a table fact of C04',
         'domain: the (hole, board) counts listed in the evidence (quick: a thinned set; thorough: the whole 0-7 x 0-5 domain of the statement)',
     ]
-    return chk.finish(checker_cmd='./check C05 --tier ' + chk.tier,
+    sis = [t['standin'] for t in chk.task_reports if t.get('standin')]
+    standin = {'label': 'B (bounded, never counted as proved)', 'what': 'real from_game on random real deals against the statement\'s clauses',
+               'deals': sum(x['deals'] for x in sis), 'failures': [f for x in sis for f in x['failures']][:6], 'per_class': [x['bound'] for x in sis]}
+    chk.assumptions.append('the random-deal comparison is a bounded stand-in (label B), never counted; it exists to give a failing input when a '
+                           'changed from_game is outside the subset the deductive tasks execute')
+    return chk.finish(checker_cmd='./check C05 --tier ' + chk.tier, standin=standin,
                       explanation='from_game / from_game_or_none of the 11 hand classes executed from source on abstract cards; result compared '
                                   'with the candidate sets of spec/composition.py')
 
